@@ -393,7 +393,7 @@ PROPS['C08'] = {
 PROPS['C15']['tools'] = [{'kind': 'witness', 'domains': ['stream'], 'bound': '1000 low-entropy frames x every single-fault damage read through Frame::read (classification == reference decoding of the line, exactly the line consumed); 4000 rounds: 1..3 random frames back to back + 0..5 trailing bytes, random fragmentation (1..7 bytes per read), up to 3 Interrupted reads, a hard error at a random call in every third round; writes into a sink accepting 1..9 bytes per call with an Interrupted result and (every fourth round) a hard error'}]
 PROPS['C16']['tools'] = [{'kind': 'witness', 'domains': ['serial'], 'bound': '2 conversations of 10 exchanges on ONE bus object with decodable / undecodable replies interleaved (no state kept between messages); 2 rounds x 14 message kinds x 5 reply frames: bytes written, reply returned, bytes consumed; 6 io::ErrorKinds injected at the write and at the read; 6 undecodable replies; elapsed time >= 30 ms / >= 100 ms on paced exchanges'}]
 PROPS['C18']['tools'] = PROPS['C16']['tools']
-PROPS['C17']['tools'] = [{'kind': 'witness', 'domains': ['bridge', 'serial-path'], 'bound': 'bridge: 40 conversations of 17 protocol messages (incl. frames of 255 and 128 data bytes) interleaved with undecodable / unknown lines, all queued on the port in advance (each call must consume exactly one line), bridge vs direct bus after every line; serial path: configure, send_pages, show, load-next, shut-down, reconfigure over controller -> serial bus -> byte stream -> bridge -> virtual bus vs the same operations directly on a virtual bus, 2 sign types x 2 flip styles'}]
+PROPS['C17']['tools'] = [{'kind': 'witness', 'domains': ['bridge', 'serial-path'], 'bound': 'bridge: 40 conversations of 22 protocol messages (incl. frames of 255 and 128 data bytes and data chunks of 0 and 1 bytes) interleaved with undecodable (incl. blank) / unknown lines, all queued on the port in advance (each call must consume exactly one line), bridge vs direct bus after every line; serial path: configure, send_pages, show, load-next, shut-down, reconfigure over controller -> serial bus -> byte stream -> bridge -> virtual bus vs the same operations directly on a virtual bus, 2 sign types x 2 flip styles'}]
 
 PROPS['C19']['verus'] = [{'tmpl': 'sign_type.rs.tmpl', 'obligations': ['SignType::from_bytes', 'SignType::dimensions']},
                          # what a virtual sign derives from a block: width / height / type exactly as cfg_of says (send_data == step_data)
